@@ -833,6 +833,19 @@ func newCnrMon(c *cnrEnv, st *Stats, prop string) *cnrMon {
 
 func (m *cnrMon) violate(what string) { m.st.AddViolation(what, m.hist) }
 
+// violate4 / violate5: each run reports the violations of its own property.
+func (m *cnrMon) violate4(what string) {
+	if m.prop == "C04" {
+		m.violate(what)
+	}
+}
+
+func (m *cnrMon) violate5(what string) {
+	if m.prop == "C05" {
+		m.violate(what)
+	}
+}
+
 func cnrOwnerOf(blob []byte) ([]byte, bool) {
 	if len(blob) < 2 {
 		return nil, false
@@ -903,20 +916,20 @@ func (m *cnrMon) step(op cnrOp, o *cnrObs) {
 	switch {
 	case putOK:
 		if len(cevs) != 1 || cevs[0].kind != 10 || !bytes.Equal(cevs[0].a, cid) || !bytes.Equal(cevs[0].b, op.Pub) {
-			m.violate("successful put did not emit exactly one PutSuccess(cid, pub)")
+			m.violate4("successful put did not emit exactly one PutSuccess(cid, pub)")
 		}
 	case delOK:
 		if !bytes.Equal(cevs[0].a, op.Cid) {
-			m.violate("DeleteSuccess names another container")
+			m.violate4("DeleteSuccess names another container")
 		}
 	case eaclOK:
 		ec, _ := cnrEACLCid(op.Blob)
 		if len(cevs) != 1 || cevs[0].kind != 12 || !bytes.Equal(cevs[0].a, ec) || !bytes.Equal(cevs[0].b, op.Pub) {
-			m.violate("successful setEACL did not emit exactly one SetEACLSuccess(cid, pub)")
+			m.violate4("successful setEACL did not emit exactly one SetEACLSuccess(cid, pub)")
 		}
 	default:
 		if len(cevs) != 0 {
-			m.violate(fmt.Sprintf("%s (halt=%v) emitted a container notification", op.Kind, o.halt))
+			m.violate4(fmt.Sprintf("%s (halt=%v) emitted a container notification", op.Kind, o.halt))
 		}
 	}
 	// --- reference registry
@@ -924,7 +937,7 @@ func (m *cnrMon) step(op cnrOp, o *cnrObs) {
 	case putOK:
 		m.nPutOK++
 		if m.dead[string(cid)] {
-			m.violate("a deleted container id was registered again")
+			m.violate4("a deleted container id was registered again")
 		}
 		inf := m.live[string(cid)]
 		if inf == nil {
@@ -933,7 +946,7 @@ func (m *cnrMon) step(op cnrOp, o *cnrObs) {
 		}
 		ow, ok := cnrOwnerOf(op.Blob)
 		if !ok {
-			m.violate("put accepted a blob without an owner field")
+			m.violate4("put accepted a blob without an owner field")
 		}
 		inf.blob, inf.sig, inf.pub, inf.tok, inf.owner = op.Blob, op.Sig, op.Pub, op.Tok, ow
 		if op.Kind == "putNamed" && op.Name != "" {
@@ -952,7 +965,7 @@ func (m *cnrMon) step(op cnrOp, o *cnrObs) {
 	case delOK:
 		m.nDelOK++
 		if m.live[string(op.Cid)] == nil {
-			m.violate("DeleteSuccess for a container that was not live")
+			m.violate4("DeleteSuccess for a container that was not live")
 		}
 		delete(m.live, string(op.Cid))
 		m.dead[string(op.Cid)] = true
@@ -961,7 +974,7 @@ func (m *cnrMon) step(op cnrOp, o *cnrObs) {
 		ec, _ := cnrEACLCid(op.Blob)
 		inf := m.live[string(ec)]
 		if inf == nil {
-			m.violate("setEACL succeeded for a container that is not live")
+			m.violate4("setEACL succeeded for a container that is not live")
 		} else {
 			inf.eacl = &[4][]byte{op.Blob, op.Sig, op.Pub, op.Tok}
 		}
@@ -974,26 +987,26 @@ func (m *cnrMon) step(op cnrOp, o *cnrObs) {
 		inf := m.live[string(pc)]
 		if inf == nil {
 			if g.ok || g.ownerOK || g.aliasOK || g.eaclOK {
-				m.violate(fmt.Sprintf("getter answered for id %x which is not live", pc))
+				m.violate4(fmt.Sprintf("getter answered for id %x which is not live", pc))
 			}
 			continue
 		}
 		hh := sha256.Sum256(g.val)
 		if !g.ok || !bytes.Equal(hh[:], pc) || !bytes.Equal(g.val, inf.blob) || !bytes.Equal(g.sig, inf.sig) || !bytes.Equal(g.pub, inf.pub) || !bytes.Equal(g.tok, inf.tok) {
-			m.violate(fmt.Sprintf("get(%x) is not the stored container / not a pre-image of the id", pc))
+			m.violate4(fmt.Sprintf("get(%x) is not the stored container / not a pre-image of the id", pc))
 		}
 		if !g.ownerOK || !bytes.Equal(g.owner, inf.owner) {
-			m.violate(fmt.Sprintf("owner(%x) is not the owner encoded in the blob", pc))
+			m.violate4(fmt.Sprintf("owner(%x) is not the owner encoded in the blob", pc))
 		}
 		if !g.aliasOK || g.aliasNull == inf.hasAlias || (inf.hasAlias && string(g.alias) != inf.alias) {
-			m.violate(fmt.Sprintf("alias(%x) is not the last name set", pc))
+			m.violate4(fmt.Sprintf("alias(%x) is not the last name set", pc))
 		}
 		want := [4][]byte{}
 		if inf.eacl != nil {
 			want = *inf.eacl
 		}
 		if !g.eaclOK || !bytes.Equal(g.eacl[0], want[0]) || !bytes.Equal(g.eacl[1], want[1]) || !bytes.Equal(g.eacl[2], want[2]) || !bytes.Equal(g.eacl[3], want[3]) {
-			m.violate(fmt.Sprintf("eACL(%x) is not the last table set", pc))
+			m.violate4(fmt.Sprintf("eACL(%x) is not the last table set", pc))
 		}
 	}
 	for i, po := range c.probeOwners {
@@ -1019,14 +1032,14 @@ func (m *cnrMon) step(op cnrOp, o *cnrObs) {
 			wantList = byCid
 		}
 		if !sameBytesList(o.lists[i][0], wantList) {
-			m.violate(fmt.Sprintf("list(%x) is not the sorted set of live ids of that owner", po))
+			m.violate4(fmt.Sprintf("list(%x) is not the sorted set of live ids of that owner", po))
 		}
 		if !sameBytesList(o.lists[i][1], byKey) {
-			m.violate(fmt.Sprintf("containersOf(%x) is not the sorted set of live ids of that owner", po))
+			m.violate4(fmt.Sprintf("containersOf(%x) is not the sorted set of live ids of that owner", po))
 		}
 	}
 	if o.count != int64(len(m.live)) {
-		m.violate(fmt.Sprintf("count = %d, live containers = %d", o.count, len(m.live)))
+		m.violate4(fmt.Sprintf("count = %d, live containers = %d", o.count, len(m.live)))
 	}
 	// --- C04: raw storage: every trace of a deleted id is gone, tombstones stay
 	ne, na, nm := 0, 0, 0
@@ -1042,7 +1055,7 @@ func (m *cnrMon) step(op cnrOp, o *cnrObs) {
 		}
 	}
 	if o.scan != [6]int{len(m.live), len(m.live), len(m.dead), ne, na, nm} || o.other != 5 {
-		m.violate(fmt.Sprintf("raw scan by prefix x,o,d,eACL,alias,m = %v (+%d other keys), expected %v (+5)", o.scan, o.other, [6]int{len(m.live), len(m.live), len(m.dead), ne, na, nm}))
+		m.violate4(fmt.Sprintf("raw scan by prefix x,o,d,eACL,alias,m = %v (+%d other keys), expected %v (+5)", o.scan, o.other, [6]int{len(m.live), len(m.live), len(m.dead), ne, na, nm}))
 	}
 	for d := range m.dead {
 		found := false
@@ -1050,11 +1063,11 @@ func (m *cnrMon) step(op cnrOp, o *cnrObs) {
 			if bytes.Equal(k, append([]byte{'d'}, d...)) {
 				found = true
 			} else if bytes.Contains(k, []byte(d)) {
-				m.violate(fmt.Sprintf("storage key %x still mentions the deleted container %x", k, d))
+				m.violate4(fmt.Sprintf("storage key %x still mentions the deleted container %x", k, d))
 			}
 		}
 		if !found {
-			m.violate(fmt.Sprintf("tombstone of %x disappeared", d))
+			m.violate4(fmt.Sprintf("tombstone of %x disappeared", d))
 		}
 	}
 	// --- C04: NNS records of alias domains
@@ -1071,7 +1084,7 @@ func (m *cnrMon) step(op cnrOp, o *cnrObs) {
 					}
 				}
 				if owner == nil {
-					m.violate(fmt.Sprintf("alias domain %s holds a TXT record %q of no known container", dm, rec))
+					m.violate4(fmt.Sprintf("alias domain %s holds a TXT record %q of no known container", dm, rec))
 					continue
 				}
 				if inf := m.live[string(owner)]; inf != nil && inf.hasAlias && inf.alias == string(dm) {
@@ -1086,9 +1099,11 @@ func (m *cnrMon) step(op cnrOp, o *cnrObs) {
 				if known {
 					// signature of the known finding: the record sits under an alias that a
 					// later putNamed of the same live container overwrote
-					m.st.AddKnown("C04/realias")
+					if m.prop == "C04" {
+						m.st.AddKnown("C04/realias")
+					}
 				} else {
-					m.violate(fmt.Sprintf("alias domain %s still holds the TXT record of container %x which is not live under that name", dm, owner))
+					m.violate4(fmt.Sprintf("alias domain %s still holds the TXT record of container %x which is not live under that name", dm, owner))
 				}
 			}
 		}
@@ -1098,7 +1113,7 @@ func (m *cnrMon) step(op cnrOp, o *cnrObs) {
 	if putOK {
 		fee := m.cfg["ContainerFee"]
 		if fee == nil {
-			m.violate("put succeeded without a configured ContainerFee")
+			m.violate5("put succeeded without a configured ContainerFee")
 			fee = new(big.Int)
 		}
 		fee = new(big.Int).Set(fee)
@@ -1106,20 +1121,20 @@ func (m *cnrMon) step(op cnrOp, o *cnrObs) {
 			if af := m.cfg["ContainerAliasFee"]; af != nil {
 				fee.Add(fee, af)
 			} else {
-				m.violate("named put succeeded without a configured ContainerAliasFee")
+				m.violate5("named put succeeded without a configured ContainerAliasFee")
 			}
 		}
 		ow, _ := cnrOwnerOf(op.Blob)
 		from := ow[1:21]
 		total := new(big.Int).Mul(fee, big.NewInt(n))
 		if fee.Sign() < 0 {
-			m.violate("put succeeded with a negative fee")
+			m.violate5("put succeeded with a negative fee")
 		}
 		for i, a := range c.accts {
 			want := new(big.Int).Set(m.prev.bals[i])
 			if bytes.Equal(a, from) {
 				if want.Cmp(total) < 0 {
-					m.violate(fmt.Sprintf("put succeeded although the owner held %s < fee*N = %s", want, total))
+					m.violate5(fmt.Sprintf("put succeeded although the owner held %s < fee*N = %s", want, total))
 				}
 				want.Sub(want, total)
 			}
@@ -1129,20 +1144,20 @@ func (m *cnrMon) step(op cnrOp, o *cnrObs) {
 				}
 			}
 			if o.bals[i].Cmp(want) != 0 {
-				m.violate(fmt.Sprintf("after put (fee %s, N %d) account #%d holds %s, expected %s", fee, n, i, o.bals[i], want))
+				m.violate5(fmt.Sprintf("after put (fee %s, N %d) account #%d holds %s, expected %s", fee, n, i, o.bals[i], want))
 			}
 		}
 		if int64(len(tx)) != n {
-			m.violate(fmt.Sprintf("put emitted %d TransferX notifications, Alphabet size is %d", len(tx), n))
+			m.violate5(fmt.Sprintf("put emitted %d TransferX notifications, Alphabet size is %d", len(tx), n))
 		} else {
 			for i, ev := range tx {
 				if !bytes.Equal(ev.from, from) || !bytes.Equal(ev.to, c.alphaAccts[i]) || ev.amount.Cmp(fee) != 0 || !bytes.Equal(ev.details, append([]byte{0x10}, cid...)) {
-					m.violate(fmt.Sprintf("TransferX #%d of put is not (owner -> alphabet[%d], fee, 0x10++cid)", i, i))
+					m.violate5(fmt.Sprintf("TransferX #%d of put is not (owner -> alphabet[%d], fee, 0x10++cid)", i, i))
 				}
 			}
 		}
 		if m.live[string(cid)] == nil {
-			m.violate("put paid but the container is not stored")
+			m.violate5("put paid but the container is not stored")
 		}
 	}
 	if isPut && !o.halt && m.prev != nil {
@@ -1152,24 +1167,24 @@ func (m *cnrMon) step(op cnrOp, o *cnrObs) {
 		// a failed invocation changes nothing anywhere
 		for i := range o.bals {
 			if o.bals[i].Cmp(m.prev.bals[i]) != 0 {
-				m.violate(fmt.Sprintf("failed %s changed the balance of account #%d", op.Kind, i))
+				m.violate5(fmt.Sprintf("failed %s changed the balance of account #%d", op.Kind, i))
 			}
 		}
 		if len(o.events) != 0 {
-			m.violate("failed invocation emitted notifications")
+			m.violate5("failed invocation emitted notifications")
 		}
 		if !sameBytesList(o.rawKeys, m.prev.rawKeys) || o.count != m.prev.count {
-			m.violate(fmt.Sprintf("failed %s changed the container storage", op.Kind))
+			m.violate5(fmt.Sprintf("failed %s changed the container storage", op.Kind))
 		}
 		for i := range o.idkeys {
 			if !sameBytesList(o.idkeys[i], m.prev.idkeys[i]) {
-				m.violate(fmt.Sprintf("failed %s changed NeoFSID keys", op.Kind))
+				m.violate5(fmt.Sprintf("failed %s changed NeoFSID keys", op.Kind))
 			}
 		}
 		if op.DT == 0 {
 			for i := range o.records {
 				if o.records[i].ok != m.prev.records[i].ok || !sameBytesList(o.records[i].recs, m.prev.records[i].recs) {
-					m.violate(fmt.Sprintf("failed %s changed NNS records", op.Kind))
+					m.violate5(fmt.Sprintf("failed %s changed NNS records", op.Kind))
 				}
 			}
 		}
@@ -1180,7 +1195,7 @@ func (m *cnrMon) step(op cnrOp, o *cnrObs) {
 	if !isPut && !(op.Kind == "mint" || op.Kind == "transfer") && m.prev != nil {
 		for i := range o.bals {
 			if o.bals[i].Cmp(m.prev.bals[i]) != 0 {
-				m.violate(fmt.Sprintf("%s moved NEOFS balance of account #%d", op.Kind, i))
+				m.violate5(fmt.Sprintf("%s moved NEOFS balance of account #%d", op.Kind, i))
 			}
 		}
 	}
